@@ -10,6 +10,8 @@ mod layoutser;
 use allsorts::binary::read::ReadScope;
 use allsorts::gsub::{self, FeatureInfo, Features, GlyphOrigin, RawGlyph, RawGlyphFlags};
 use allsorts::layout::{new_layout_cache, GDEFTable, LayoutTable, GSUB};
+use allsorts::tables::variable_fonts::fvar::Tuple;
+use allsorts::tables::F2Dot14;
 use allsorts::tinyvec::TinyVec;
 use allsorts::unicode::VariationSelector;
 use avh::prng::Rng;
@@ -152,7 +154,7 @@ fn ser_subtable(ty: i64, t: &T) -> Vec<u8> {
     o.finish()
 }
 
-fn ser_gsub(layout: &T) -> Vec<u8> {
+fn ser_gsub(layout: &T, fvx: Option<&T>) -> Vec<u8> {
     let l = layout.list();
     let lookups = l[2].opt().map(|lks| {
         ser_lookup_list(
@@ -167,7 +169,26 @@ fn ser_gsub(layout: &T) -> Vec<u8> {
                 .collect(),
         )
     });
-    ser_layout_table(l[0].opt().map(ser_script_list), l[1].opt().map(ser_feature_list), lookups)
+    let (scripts, features) = (l[0].opt().map(ser_script_list), l[1].opt().map(ser_feature_list));
+    match fvx {
+        // old case lines: the version 1.0 header, byte for byte as before
+        None => ser_layout_table(scripts, features, lookups),
+        Some(x) => {
+            let x = x.list();
+            let fv: Vec<u8> = x[2].ints().iter().map(|b| *b as u8).collect();
+            ser_layout_table_v(scripts, features, lookups, x[0].int(), x[1].int(), &fv)
+        }
+    }
+}
+
+/// the variation tuple of the optional fifth element: F2Dot14 raw values
+fn tuple_of(fvx: Option<&T>) -> Option<Vec<F2Dot14>> {
+    fvx.and_then(|x| x.list()[3].opt().map(|t| t.ints().iter().map(|v| F2Dot14::from_raw(*v as i16)).collect()))
+}
+
+fn as_tuple(v: &[F2Dot14]) -> Tuple<'_> {
+    // SAFETY: pointer and length of a live slice; the values are what the case prescribes
+    unsafe { Tuple::from_raw_parts(v.as_ptr(), v.len()) }
 }
 
 // ---------------------------------------------------------------------------------------------------
@@ -255,7 +276,10 @@ fn run_case(input: &str) -> String {
     let tree = parse_tree(&input[1..]);
     let top = tree.list();
     let gdef_bytes = ser_gdef(&top[0]);
-    let gsub_bytes = ser_gsub(&top[1]);
+    let fvx = top.get(4);
+    let gsub_bytes = ser_gsub(&top[1], fvx);
+    let tuple_values = tuple_of(fvx);
+    let tuple = tuple_values.as_deref().map(as_tuple);
     let gdef = match &gdef_bytes {
         Some(b) => match ReadScope::new(b).read::<GDEFTable>() {
             Ok(g) => Some(g),
@@ -286,7 +310,7 @@ fn run_case(input: &str) -> String {
             run[1].int() as u32,
             run[2].opt().map(|l| l.int() as u32),
             &Features::Custom(feats),
-            None,
+            tuple,
             run[4].int() as u16,
             &mut glyphs,
         );
@@ -305,7 +329,7 @@ fn run_case(input: &str) -> String {
             run[1].int() as u32,
             run[2].opt().map(|l| l.int() as u32),
             &Features::Mask(mask),
-            None,
+            tuple,
             run[4].int() as u16,
             &mut glyphs,
         );
@@ -811,6 +835,144 @@ fn cov_member_list(cov: &T) -> Vec<i64> {
     }
 }
 
+// ---------------------------------------------------------------------------------------------------
+// feature variations: the optional fifth element of a case
+//   fvx = (minor off_kind (byte ...) opt (raw ...))
+// minor / off_kind: the GSUB header (ser_layout_table_v); the bytes are the FeatureVariations table; the last
+// component is the variation tuple (F2Dot14 raw values) handed to gsub::apply, () = None.
+
+const F2GRID: [i64; 9] = [-16384, -12288, -8192, -4096, 0, 4096, 8192, 12288, 16384];
+
+fn gen_fv_cond(rng: &mut Rng, tuple: &[i64]) -> FvCond {
+    if rng.chance(1, 25) {
+        return FvCond::UnknownFormat(*rng.pick(&[2i64, 0, 65535, 257]));
+    }
+    if rng.chance(1, 40) {
+        return FvCond::Dangling;
+    }
+    let n = tuple.len() as i64;
+    // the axis: one the tuple has, rarely the first one it lacks or a far one
+    let axis = match rng.below(14) {
+        0 => n + rng.range(0, 1),
+        1 if rng.chance(1, 3) => 65535,
+        _ => rng.range(0, (n - 1).max(0)),
+    };
+    let v = tuple.get(axis as usize).copied();
+    let lower = |rng: &mut Rng, v: i64| -> i64 {
+        let c: Vec<i64> = F2GRID.iter().cloned().filter(|g| *g <= v).collect();
+        if c.is_empty() { v } else { *rng.pick(&c) }
+    };
+    let upper = |rng: &mut Rng, v: i64| -> i64 {
+        let c: Vec<i64> = F2GRID.iter().cloned().filter(|g| *g >= v).collect();
+        if c.is_empty() { v } else { *rng.pick(&c) }
+    };
+    let (min, max) = match (v, rng.below(20)) {
+        // regions that contain the tuple's value: the value exactly on the lower / upper boundary, nested and
+        // overlapping regions over the same grid
+        (Some(v), 0..=2) => (v, upper(rng, v)),
+        (Some(v), 3..=5) => (lower(rng, v), v),
+        (Some(v), 6) => (v, v),
+        (Some(v), 7..=11) => (lower(rng, v), upper(rng, v)),
+        (Some(_), 12) => (-16384, 16384),
+        // the value just outside
+        (Some(v), 13) => (v + 1, upper(rng, v + 1)),
+        (Some(v), 14) => (lower(rng, v - 1), v - 1),
+        // an empty range around the value: min > max
+        (Some(v), 15) => (upper(rng, v).max(v + 1), lower(rng, v).min(v - 1)),
+        (Some(v), 16) => (v + 1, v - 1),
+        _ => {
+            let (a, b) = (*rng.pick(&F2GRID), *rng.pick(&F2GRID));
+            if rng.chance(1, 6) { (a.max(b), a.min(b)) } else { (a.min(b), a.max(b)) }
+        }
+    };
+    FvCond::Range { axis, min, max }
+}
+
+/// (fvx, number of records); `used` = feature indices some LangSys lists
+fn gen_fv(rng: &mut Rng, nfeat: i64, nlookups: i64) -> T {
+    let tuple: Option<Vec<i64>> = if rng.chance(1, 10) {
+        None
+    } else {
+        let n = *rng.pick(&[0i64, 1, 1, 1, 2, 2, 3]);
+        Some((0..n).map(|_| *rng.pick(&F2GRID) + *rng.pick(&[0i64, 0, 0, 0, 1, -1])).map(|v| v.clamp(-32768, 32767)).collect())
+    };
+    let tv: Vec<i64> = tuple.clone().unwrap_or_else(|| vec![0]);
+    let nrec = *rng.pick(&[0usize, 1, 1, 2, 2, 2, 2, 3, 3, 3, 4, 4]);
+    let mut recs: Vec<FvRecord> = vec![];
+    for k in 0..nrec {
+        let cond = match rng.below(40) {
+            0..=7 => FvCondSet::Universal,
+            8 => FvCondSet::Dangling,
+            9 | 10 if k > 0 => FvCondSet::SameAs(rng.below(k as u64) as usize),
+            11 | 12 => FvCondSet::Set(vec![]),
+            _ => {
+                let n = *rng.pick(&[1usize, 1, 1, 2, 2, 3]);
+                FvCondSet::Set((0..n).map(|_| gen_fv_cond(rng, &tv)).collect())
+            }
+        };
+        let subst = match rng.below(40) {
+            0..=9 => FvSubst::Null,
+            10 => FvSubst::Dangling,
+            11 | 12 if k > 0 => FvSubst::SameAs(rng.below(k as u64) as usize),
+            _ => {
+                let major = if rng.chance(1, 7) { *rng.pick(&[2i64, 0, 256]) } else { 1 };
+                let minor = if rng.chance(1, 8) { rng.range(1, 3) } else { 0 };
+                let n = *rng.pick(&[0usize, 1, 1, 2, 2, 3, 3]);
+                let mut fis: Vec<i64> = (0..n)
+                    .map(|_| if rng.chance(1, 8) { nfeat + rng.range(0, 2) } else { rng.range(0, nfeat - 1) })
+                    .collect();
+                // sorted by feature index (the order the format prescribes), with or without duplicates; or as drawn
+                match rng.below(6) {
+                    0 => {}
+                    1 => fis.sort_by(|a, b| b.cmp(a)),
+                    2 => fis.sort(),
+                    _ => {
+                        fis.sort();
+                        fis.dedup();
+                    }
+                }
+                let recs = fis
+                    .into_iter()
+                    .map(|fi| {
+                        let alt = if rng.chance(1, 20) {
+                            FvAlt::Dangling
+                        } else {
+                            let nl = rng.range(0, 3);
+                            FvAlt::Table((0..nl).map(|_| if rng.chance(1, 40) { nlookups + rng.range(0, 1) } else { rng.range(0, nlookups - 1) }).collect())
+                        };
+                        (fi, alt)
+                    })
+                    .collect();
+                FvSubst::Table { major, minor, recs }
+            }
+        };
+        recs.push(FvRecord { cond, subst });
+    }
+    let major = if rng.chance(1, 40) { *rng.pick(&[0i64, 2]) } else { 1 };
+    let bias = match rng.below(60) {
+        0 => 1,
+        1 => -1,
+        _ => 0,
+    };
+    let mut bytes = ser_feature_variations(major, if rng.chance(1, 10) { 1 } else { 0 }, &recs, bias);
+    if rng.chance(1, 30) && !bytes.is_empty() {
+        let keep = rng.below(bytes.len() as u64) as usize;
+        bytes.truncate(keep);
+    }
+    let minor = match rng.below(30) {
+        0 | 1 => 0,
+        2 => 2,
+        _ => 1,
+    };
+    let off_kind = match rng.below(40) {
+        0 | 1 => 1,
+        2 => *rng.pick(&[2i64, 3, 9]),
+        _ => 0,
+    };
+    let bytes: Vec<i64> = bytes.iter().map(|b| *b as i64).collect();
+    T::L(vec![T::I(minor), T::I(off_kind), T::of_ints(&bytes), match tuple { Some(t) => T::some(T::of_ints(&t)), None => T::none() }])
+}
+
 pub fn gen(rng: &mut Rng) -> String {
     let gdef = gen_gdef(rng);
     let nlookups = rng.range(1, 5);
@@ -1009,7 +1171,20 @@ pub fn gen(rng: &mut Rng) -> String {
         let alt = if rng.chance(1, 4) { T::some(T::I(rng.range(0, 3))) } else { T::none() };
         T::L(vec![T::I(1), T::I(li), T::I(*rng.pick(FEATURE_TAGS)), alt, T::I(start), T::I(length)])
     };
-    format!("{} {}", build_mode(), T::L(vec![gdef, layout, run, T::L(glyphs)]))
+    let mut top = vec![gdef, layout, run, T::L(glyphs)];
+    // feature variations: half of the gsub::apply runs get a version 1.1 table and a variation tuple.  The
+    // element is drawn from a generator of its own, seeded by the case generated so far: the caller's random
+    // stream is consumed exactly as before this element existed, so the first four elements of every case
+    // (and the streams of the C01 / C02 harnesses, which call this function) are unchanged.
+    let mut h: u64 = 0xcbf29ce484222325;
+    for b in T::L(top.clone()).to_string().bytes() {
+        h = (h ^ b as u64).wrapping_mul(0x100000001b3);
+    }
+    let mut frng = Rng::new(h);
+    if (run_is_apply && frng.chance(1, 2)) || (!run_is_apply && frng.chance(1, 12)) {
+        top.push(gen_fv(&mut frng, nfeat, nlookups));
+    }
+    format!("{} {}", build_mode(), T::L(top))
 }
 
 fn main() {
